@@ -496,12 +496,14 @@ def make_machine(gen: int, stats: Stats):
 
 
 def _wrap_ops(gen):
-    burst = st.lists(_send_item(gen), min_size=5, max_size=10).map(lambda b: ["send", [[k, p, "idem", h] for k, p, _pol, h in b]])
+    # factory-assigned packet ids only (no explicit headers): the header factory's counter must pass 255 -> 0 at least once
+    burst = st.lists(_send_item(gen), min_size=8, max_size=10).map(
+        lambda b: ["send", [[k, p, "idem", None] for k, p, _pol, _h in b if k != "bad"] or [["ac_req", [], "idem", None]]])
     outage = st.tuples(st.sampled_from(["eof", "reset"]), st.integers(0, 2)).map(
         lambda t: [["script", [["refuse", 0.0]] * t[1]], ["down", t[0]], ["advance", 2.0 * t[1] + 0.5]])
     block = st.one_of(burst.map(lambda b: [b]), burst.map(lambda b: [b]), outage,
                       st.tuples(outage, burst).map(lambda t: t[0][:2] + [t[1]] + t[0][2:]))
-    return st.lists(block, min_size=40, max_size=90).map(lambda bl: [op for b in bl for op in b])
+    return st.lists(block, min_size=60, max_size=90).map(lambda bl: [op for b in bl for op in b])
 
 
 def run_ops(gen: int, ops, stats: Stats | None):
